@@ -29,6 +29,7 @@ type Spec struct {
 	TimeoutMs int               `json:"timeout_ms"` // per solver query
 	KnownOpen []string          `json:"known_open"`
 	Workers   int               `json:"workers"`
+	ConstTrees bool             `json:"consttrees"` // guarded-constant normal form of integer terms (ctree.go); pays off for index arithmetic over symbolic bytes (C06), costs elsewhere
 	DeadlineS int               `json:"deadline_s"` // whole run: jobs still running then end as timeouts, later ones are not started
 	Jobs      []Job             `json:"jobs"`
 	BMC       []BMCJob          `json:"bmc"`
@@ -291,6 +292,9 @@ func main() {
 		spec.Workers = 1
 	}
 
+	if os.Getenv("VERIF_NOCT") == "" && os.Getenv("VERIF_CT") == "" {
+		noCT = !spec.ConstTrees
+	}
 	t0 := time.Now()
 	if spec.DeadlineS > 0 {
 		runDeadline = t0.Add(time.Duration(spec.DeadlineS) * time.Second)
